@@ -958,7 +958,14 @@ where
 
         cache.clear_if_invalid(manager, vars);
 
-        inner(manager, edge.borrowed(), cache) >> (manager.num_levels() - vars)
+        let n = inner(manager, edge.borrowed(), cache);
+        let levels = manager.num_levels();
+        if vars >= levels {
+            // every additional variable doubles the number of models
+            n << (vars - levels)
+        } else {
+            n >> (levels - vars)
+        }
     }
 
     fn pick_cube_edge<'id, 'a>(
